@@ -58,6 +58,12 @@ def reservation_scope(namespace, binding):
     namespaces = {namespace}
 
     for node in binding.references:
+        parent = getattr(node, '_parent', None)
+        if isinstance(parent, ast.NamedExpr) and parent.target is node:
+            # An assignment expression target is bound outside of any enclosing comprehensions,
+            # but its name must be reserved in those comprehensions too.
+            node = parent
+
         while node is not namespace:
             namespaces.add(node.namespace)
             node = node.namespace
